@@ -114,9 +114,10 @@ Proof.
 Qed.
 
 (* a routine whose result is not a float (mk = TA, a 0-d array): the parameters of the returned instance are
-   not found by the walk any more, so a series made of such results is not interpolated (finding
-   spline-result-is-array) *)
-Example array_results_are_not_walked :
+   not found by the walk any more, so a series made of such results is not interpolated.  History: this
+   was SplineInterpolator before /repo 3338de6 (finding spline-result-is-array, fixed); the code now
+   stores floats (Props.C20_leaf_code) *)
+Example array_results_are_not_walked_legacy :
   match interp_at Z.leb Z.eqb (fun z => z) left_value TA true series ["t"] (TF 15%Z) with
   | ONew r => fpaths r = [[KS "t"]] /\ get [KS "gaussian"; KS "centre"] r = Some (TA 150%Z)
   | _ => False
